@@ -45,6 +45,8 @@ Laws == \A s \in Strings(IF MaxLen > 4 THEN 4 ELSE MaxLen) :
           /\ Unesc(Esc(s)) = s
           /\ NoRawReserved(Esc(s)) /\ WellEscaped(Esc(s))
           /\ Strip(Strip(s)) = Strip(s)
+          \* colouring is undone by stripping, and a coloured escaped text is still wire safe
+          /\ \A c \in DOMAIN ColourCode : Strip(Colourify(c, s)) = Strip(s) /\ NoRawReserved(Colourify(c, Esc(s)))
           /\ Cardinality({i \in 1..Len(Strip(Esc(s))) : Strip(Esc(s))[i] = 94}) <= Cardinality({i \in 1..Len(Esc(s)) : Esc(s)[i] = 94})
           \* an escaped ASCII string read back by LFS and unescaped is the original
           /\ ((\A i \in 1..Len(s) : s[i] < 128) => Unesc(CpDecode(Esc(s))) = s)
